@@ -185,3 +185,22 @@ def paths_match_equivalence(p: Prov, a: opt_str, b: opt_str, c: opt_str, d: bool
         check(p.paths_match(a, b, d) == (p.normalize_path(a, d) == p.normalize_path(b, d)), "agrees with normalisation")
     if a is None and b is not None:
         check(not p.paths_match(a, b, d), "None matches only None")
+
+
+# --------------------------------------------------------------------------- translate (cloudsync/cs.py)
+
+@lemma(props=["C13", "C12"], configs="provider_pairs", opaque=["nps"])
+def translate_uses_source_conventions(cs: CS, path: str):
+    """law 8 / L12.1: CloudSync.translate(side, path) decides "inside the other side's root" with the *source*
+    provider's path rules, yields nothing for everything outside that root, and otherwise joins the relative part
+    to this side's root with this side's provider"""
+    side = cs_side(cs)
+    src = cs.providers[1 - side]
+    dst = cs.providers[side]
+    rel = src.is_subpath(cs.roots[1 - side], path)
+    t = cs.translate(side, path)
+    if rel:
+        check(t is not None, "a path inside the source root translates")
+        check(t == dst.join(cs.roots[side], rel), "to the destination root joined with the same relative part")
+    else:
+        check(t is None, "a path outside the source root translates to nothing")
